@@ -134,6 +134,13 @@ void run_simple(vf::Ctx &c, const Cfg &cfg, void (*add)(Proc &, std::unique_ptr<
           g->log(RET_ADD, t * 100 + i);
         }
       });
+    for (int f = 0; f < cfg.F; ++f)
+      ts.emplace_back([&, f] {
+        // ForceFlush racing the exports (an independently seeded change released the export lock from here)
+        g->log(CALL_FF, f);
+        bool ok = proc.ForceFlush();
+        g->log(RET_FF, f, ok);
+      });
     for (int s = 0; s < cfg.S; ++s)
       ts.emplace_back([&, s] {
         g->log(CALL_SD, s);
@@ -293,7 +300,10 @@ void setup(vf::Options &o) {
       { Cfg c = z; c.T = 2; c.n = 2; g_cfgs.push_back(c); }
       { Cfg c = z; c.T = 3; c.n = 1; g_cfgs.push_back(c); }
       { Cfg c = z; c.T = 2; c.n = 1; c.S = 1; g_cfgs.push_back(c); }
+      { Cfg c = z; c.T = 2; c.n = 1; c.F = 1; g_cfgs.push_back(c); }   // ForceFlush while exports are in flight
+      { Cfg c = z; c.T = 2; c.n = 2; c.F = 1; g_cfgs.push_back(c); }
       if (th) { Cfg c = z; c.T = 3; c.n = 2; g_cfgs.push_back(c); }
+      if (th) { Cfg c = z; c.T = 3; c.n = 1; c.F = 2; g_cfgs.push_back(c); }
     } else {
       { Cfg c = z; c.T = 1; c.n = 1; c.S = 2; g_cfgs.push_back(c); }                  // simple: latch forwards one exporter Shutdown
       { Cfg c = z; c.T = 1; c.n = 1; c.S = 2; c.destroy = 1; g_cfgs.push_back(c); }
